@@ -147,6 +147,7 @@ func runC06(c *Ctx) {
 	procs, salt := c.Arg("procs", "?"), c.Arg("salt", "")
 	logger := rig.NewCapLogger(nil)
 	logger.Discard = func(r *rig.LogRecord) bool { return true }
+	lifeLogger = logger
 	switch c.Arg("mode", "") {
 	case "failures":
 		runC06Failures(c)
